@@ -160,10 +160,8 @@ pub fn run(prop: &str, args: &Args) -> LegResult {
         let mut hs = vec![];
         let mut sut_abort: Option<String> = None;
         let mut legs: Vec<(String, Option<PathBuf>, Option<&str>)> = vec![("process A".into(), None, None), ("process B".into(), None, None)];
-        if let Some(s) = shim() {
-            legs.push(("process C (LD_PRELOAD getrandom shim, VERIF_HASH_SEED=1)".into(), Some(s.clone()), Some("1")));
-            legs.push(("process D (LD_PRELOAD getrandom shim, VERIF_HASH_SEED=2)".into(), Some(s), Some("2")));
-        }
+        // (the hash-seed variation is exercised by C38's own child-process leg, where the shim is
+        // preloaded into the test binary only, never into cargo/rustc)
         let mut children = vec![];
         for (name, pre, hseed) in &legs {
             let mut envs = base.clone();
